@@ -109,10 +109,28 @@ def c19_run(reqs):
                        cwd='/repo', env=env, stdout=subprocess.PIPE, stderr=subprocess.STDOUT, text=True)
     if p.returncode != 0:
         return [f'{r} => build-failed' for r in reqs]
+    binary = '/verif/build/target-rel/release/clockbound'
+    # `@env`: every environment-variable-like name the binary itself mentions that could concern the
+    # drift rate is set to a different, well-formed value: the published rate must not depend on it
+    names = []
+    try:
+        data = open(binary, 'rb').read()
+        import re as _re
+        for m in _re.finditer(rb'[A-Z][A-Z0-9_]{4,40}', data):
+            t = m.group(0).decode()
+            if any(k in t for k in ('CLOCKBOUND', 'DRIFT', 'PPM', 'PPB', 'MAX_RATE')) and t not in names: names.append(t)
+    except OSError:
+        pass
     def one(r):
-        arg = r.split()[1]
-        cmd = ['/verif/tools/run_daemon.sh', '/verif/build/target-rel/release/clockbound'] + ([] if arg == 'none' else ['--max-drift-rate', arg])
-        q = subprocess.run(cmd, stdout=subprocess.PIPE, stderr=subprocess.DEVNULL, text=True, timeout=60)
+        toks = r.split()
+        arg = toks[1]
+        cmd = ['/verif/tools/run_daemon.sh', binary] + ([] if arg == 'none' else ['--max-drift-rate', arg])
+        e = dict(os.environ)
+        if '@env' in toks:
+            for n in names[:64]: e[n] = '7'
+        if '@prior' in toks:
+            e['CB_PRIOR_PPB'] = toks[toks.index('@prior') + 1]
+        q = subprocess.run(cmd, env=e, stdin=subprocess.DEVNULL, stdout=subprocess.PIPE, stderr=subprocess.DEVNULL, text=True, timeout=60)
         return f'{r} => {q.stdout.strip() or "no-output"}'
     with concurrent.futures.ThreadPoolExecutor(max_workers=12) as ex:
         return list(ex.map(one, reqs))
@@ -124,7 +142,14 @@ def c19_gen(seed, thorough):
         for _ in range(300 if thorough else 50):
             k = rnd.randrange(4)
             vals.append(rnd.randrange(0, 4294968) if k == 0 else rnd.randrange(4294968, 2**32) if k == 1 else rnd.randrange(4294960, 4294980) if k == 2 else rnd.randrange(0, 100000))
-        return c19_run([f'drift {v}' for v in dict.fromkeys(vals)])
+        reqs = [f'drift {v}' for v in dict.fromkeys(vals)]
+        # restart over a previous instance's live record (another rate in it), and a hostile environment
+        for v, prior in (('none', 50000), (50, 1000), (1, 0), (4294967, 0), (0, 123456), (4294968, 1000), (7, 7000)):
+            reqs.append(f'drift {v} @prior {prior}')
+        for v in ('none', 50, 0, 4294967, 4294968):
+            reqs.append(f'drift {v} @env')
+        reqs.append('drift 50 @prior 1000 @env')
+        return c19_run(reqs)
     return [g]
 
 EXTERNAL = {'drift': c19_run}
